@@ -115,7 +115,8 @@ def emit_param_str(
                 None,
                 (
                     (
-                        _fill(
+                        # the `name : type` line is one line: a wrapped type is read back as another entry
+                        (
                             (_param["typ"] if _param.get("typ") else None)
                             if name == "return_type"
                             else "{name} :{typ}".format(
